@@ -376,7 +376,7 @@ def select_groups(prop, tier, only=None):
     return gs
 
 
-def write_evidence(prop, tier, seed, wall, groups, results, verdicts, violations, known_hits, inconclusive):
+def write_evidence(prop, tier, seed, wall, groups, results, verdicts, violations, known_hits, inconclusive, attempted=()):
     samples = []
     n_queries = 0
     solver_s = 0.0
@@ -413,6 +413,7 @@ def write_evidence(prop, tier, seed, wall, groups, results, verdicts, violations
             "discharged": passed,
             "known_findings": known_hits,
             "inconclusive": inconclusive,
+            "attempted_beyond_claim_inconclusive": list(attempted),
             "solver_time_s": round(solver_s, 3),
             "symex_time_s": round(symex_s, 3),
             "functions_encoded": sorted({f for g in groups for f in g.get("functions", [])}),
@@ -480,6 +481,7 @@ def main():
     t0 = time.time()
     known = load_known()
     violations, known_hits, inconclusive, failures = [], [], [], []
+    attempted = []
     verdicts = {}
     results = []
     try:
@@ -490,6 +492,9 @@ def main():
                 res = f.result()
                 results.append(res)
                 log("[%s] rc=%s wall=%.0fs harnesses=%d" % (g["id"], res["rc"], res["wall_s"], len(res["harnesses"])))
+                if (res.get("build_failed") or not res["harnesses"]) and g.get("best_effort"):
+                    attempted.append({"group": g["id"], "why": "no result (wall timeout / memory)"})
+                    continue
                 if res.get("build_failed") or not res["harnesses"]:
                     inconclusive.append({"group": g["id"], "why": "no results (build failed, wall timeout or no "
                                          "matching harness)", "tail": res.get("tail", "")[-1500:]})
@@ -505,8 +510,14 @@ def main():
                     if v == "pass":
                         continue
                     if v == "inconclusive":
-                        inconclusive.append({"harness": hid, "why": why})
-                        log("  INCONCLUSIVE %s: %s" % (hid, why))
+                        if g.get("best_effort"):
+                            # an attempt beyond the stated bounds of the claim: reported, never counted
+                            attempted.append({"harness": hid, "why": why, "group": g["id"]})
+                            verdicts[hid] = ("attempted-inconclusive", why)
+                            log("  attempted (best effort), inconclusive %s: %s" % (hid, why))
+                        else:
+                            inconclusive.append({"harness": hid, "why": why})
+                            log("  INCONCLUSIVE %s: %s" % (hid, why))
                         continue
                     k = match_known(known, prop, hid, h["failed_checks"])
                     if k:
@@ -549,7 +560,7 @@ def main():
             log("scratch kept at", scratch)
     wall = time.time() - t0
     if not a.no_evidence and not a.only and not os.environ.get("VERIF_NO_EVIDENCE"):
-        write_evidence(prop, tier, seed, wall, groups, results, verdicts, violations, known_hits, inconclusive)
+        write_evidence(prop, tier, seed, wall, groups, results, verdicts, violations, known_hits, inconclusive, attempted)
     for k in known_hits:
         print("KNOWN-FINDING: property=%s %s [%s] %s" % (prop, k["id"], k["harness"].split("::")[-1], k["what"]))
     npass = sum(1 for v in verdicts.values() if v[0] == "pass")
